@@ -137,6 +137,7 @@ class Interp:
         self.loop_ordinals = {}
         self.drops = []
         self.qctx = []
+        self.seq_classes = {}
         self.extra_outputs = {}
 
     # ------------------------------------------------------------ symbols
@@ -178,6 +179,8 @@ class Interp:
             return SSetV(self.fresh_term(base, smt.SetS(type_sort(ty[1], classes)), is_input), ty[1])
         if h == 'seq':
             t = self.fresh_term(base, smt.SeqS(type_sort(ty[1], classes)), is_input)
+            if ty[1][0] in classes:
+                self.seq_classes[base] = ty[1][0]
             return self.alloc_list(SSeqV(t, ty[1]))
         if h == 'fseq':
             return SSeqV(self.fresh_term(base, smt.SeqS(type_sort(ty[1], classes)), is_input), ty[1])
